@@ -14,6 +14,19 @@ CHECKS = {
    note="Trusted: TLC, Json module, harness rendering. Laws judged by exact operator where the documentation fixes the result, by component list where only the components are fixed (dir, trim_first, trim_last).",
    technique="TLA+ operator algebra (PathLex) + TLC validation of implementation records (exhaustive short strings, random long)"),
 }
+CHECKS.update({
+ "C05": dict(level=MC, ref="DESIGN.md 5/C05",
+   text="PathLex!Abs (empty check, Expand, TrimProtocol, Clean, leading-'..' walk against the cwd) is model-checked for shape, idempotence, the lexical-join law and 'fails only for the three documented reasons' on every string up to the bound x cwds x HOME values; the real Memfs::abs, Stdfs::abs and the trait abs are run on every string up to length 4 (quick) / 6 (thorough) over {/ . ~ $ { } : a e-acute} x 4 cwds x 4 environments (own process each) and every record is judged by TLC against the same operator.",
+   note="Trusted: TLC, Json module, harness rendering; Stdfs cwd is the process cwd inside a tmpfs sandbox. 'Every other method resolves through abs' is decided by the respelled-argument runs of the Vfs trace checks (C01/C13).",
+   technique="TLA+ operator spec model-checked with TLC + TLC validation of implementation records per environment/cwd"),
+ "C16": dict(level=MC, ref="DESIGN.md 5/C16",
+   text="MC_Relative checks on the specification, for all 14 641 ordered pairs of clean absolute paths <= 4 components over 3 names, the shape, round-trip and '..'-count laws of Relative; the real relative() is run on the same pairs (plus random deeper and relative operands) and TLC judges each output against Relative.",
+   note="Trusted: TLC, Json module, harness rendering.", technique="TLA+ law check with TLC + TLC validation of implementation records (exhaustive pairs)"),
+ "C17": dict(level=MC, ref="DESIGN.md 5/C17",
+   text="The variable scanner is a TLA+ state machine (lit/dollar/name) model-checked from every component string in every environment against the recursive ExpandSeg operator and the C17 laws (plain text unchanged, never guesses, termination); the real expand()/abs() run in 64 separately spawned environments on every template up to 4 (quick) / 5 (thorough) segments and TLC judges each record with the process' environment.",
+   note="Trusted: TLC, Json module, harness rendering. Not judged (documentation silent, DECISION): a variable whose value starts with '/' or is empty at the start of a relative path (textual vs component-join semantics).",
+   technique="TLA+ scanner state machine model-checked with TLC + TLC validation of implementation records per spawned environment"),
+})
 NOT_YET = {}
 
 def main():
